@@ -38,8 +38,38 @@ def main():
         data = b"MAIL FROM:" + snd + b"\r\nRCPT TO:<joe@ok.dom>\r\nDATA\r\nhi\r\n.\r\nQUIT\r\n"
         out, rc, subs = S.run(cb, data, [0])
         jobs.append((cb, data, [0], out, rc, subs))
+    # directed: every letter of the alphabet, in either case on either side, in both constmap-backed lists
+    import string
+    for L in string.ascii_lowercase:
+        l = L.encode(); U = l.upper()
+        cz = dict(gen_cfg(rng), rcpthosts=[b"ok.dom", b"a" + U + b"b.dom", b"." + U + U + b".dom", l + b"x.dom"], morercpthosts=[], badmailfrom=[b"@s" + l + b".dom", b"q" + U + b"@x.dom"],
+                  relayclient=None, databytes=0, localiphost=None)
+        S.configure(cz)
+        for snd, rcp in [(b"a@s" + U + b".dom", b"joe@ok.dom"), (b"q" + l + b"@x.dom", b"joe@ok.dom"), (b"ok@x.example", b"joe@a" + l + b"b.dom"), (b"ok@x.example", b"joe@sub." + l + U + b".dom"),
+                         (b"ok@x.example", b"joe@" + U + b"x.dom"), (b"ok@x.example", b"joe@" + l + b"y.dom")]:
+            data = b"MAIL FROM:<" + snd + b">\r\nRCPT TO:<" + rcp + b">\r\nDATA\r\nhi\r\n.\r\nQUIT\r\n"
+            out, rc, subs = S.run(cz, data, [0])
+            jobs.append((cz, data, [0], out, rc, subs))
     ml, _, _ = vlib.run_lines(drv, ["sess %s %s %s" % (cfg_args(c), vlib.hx(d), ",".join("%d:-" % e for e in ex)) for c, d, ex, _, _, _ in jobs])
     fails, mism = [], []
+    # directed: an unreadable / truncated compiled extra list.  The lookup then fails; whatever the server answers,
+    # a recipient whose domain is on no list must not get 250 and nothing may be handed to the queue for it.
+    cm = dict(gen_cfg(rng), rcpthosts=[b"ok.dom"], morercpthosts=[b"more.dom", b".more.dom"], badmailfrom=None, relayclient=None, databytes=0, localiphost=None)
+    S.configure(cm)
+    cdbp = os.path.join(S.cd, "morercpthosts.cdb")
+    whole = open(cdbp, "rb").read()
+    for cut in [0, 1, 7, 100, 1024, 2047, 2048, len(whole) // 2 + 1024, len(whole) - 1]:
+        open(cdbp, "wb").write(whole[:cut])
+        for dom in [b"unlisted.dom", b"sub.unlisted.dom", b"notok.dom"]:
+            data = b"MAIL FROM:<s@x.example>\r\nRCPT TO:<joe@" + dom + b">\r\nDATA\r\nhi\r\n.\r\nQUIT\r\n"
+            out, rc, subs = S.run(cm, data, [0])
+            ck.evaluated(); ck.count("broken_cdb_sessions")
+            codes = reply_codes(out)[1:]
+            done = [env for _, env in subs if env.endswith(b"\0\0")]
+            if (len(codes) > 1 and codes[1] == 250) or done:
+                fails.append(("smtpd:accepted-what-policy-refuses", dict(kind="input", config="rcpthosts=ok.dom; morercpthosts.cdb = first %d of %d bytes of the file qmail-newmrh compiled from more.dom/.more.dom" % (cut, len(whole)),
+                              session=data.decode(), observed_codes=codes, observed_submissions=[e.decode("latin1") for e in done]), cut))
+    os.remove(cdbp)
     for (c, data, exits, out, rc, subs), m in zip(jobs, ml):
         ck.evaluated(); ck.count("sessions")
         ck.nontrivial((str(sorted((k, str(v)) for k, v in c.items())), data))
